@@ -1,6 +1,978 @@
-//! C11 — not built yet.
-use vcommon::Args;
+//! C11 — built messages parse back to the same header and body.
+//!
+//! Space: 4 message types × every subset of the optional header fields the builder lets one set
+//! for the type (one value each, two for path/destination; thorough: two for every field) ×
+//! all 8 flag subsets (the ones the builder refuses are an expected outcome class) × both byte
+//! orders (`Builder::endian`, and inherited through `reply_to` for replies) × the body corpus
+//! (unit, basic, string, padded struct, arrays, dict, variant, nested, one fd, two fds; bodies
+//! that have a statically typed twin are built through both routes) × automatic / explicit
+//! serial × two builder routes (the `Message::*` constructors, and `Builder::from(Header)`).
+//!
+//! Oracle (reference model = `refmsg`, written from the message format, no zvariant):
+//!   header-array-valid   the header is a strictly valid fixed part + `a(yv)` + zero padding
+//!   fields-as-set        the entries, as a set, are exactly the logical fields with the
+//!                        prescribed value types (no duplicates, nothing extra, nothing missing)
+//!   header-bytes-exact   re-encoding by the reference in the observed field order gives the
+//!                        same bytes (fixed part, array length, element padding, body padding)
+//!   body-length-declared declared body length == bytes after the 8-aligned body offset
+//!   unix-fds-declared    UNIX_FDS (absent = 0) == fds attached == `h` leaves in the body
+//!   body-decodes         the body bytes decode (reference decoder) to the body value
+//!   reparse-equal        `Message::from_bytes(data)` gives equal type, serial, flags, every
+//!                        field, signature and body value (also compared with the logical case)
 
-pub fn main(_args: &Args) -> i32 {
-    vcommon::machinery_failure("C11: check not built yet")
+use std::{
+    num::NonZeroU32,
+    os::fd::{AsFd, OwnedFd},
+    sync::OnceLock,
+};
+
+use serde::{Deserialize, Serialize};
+use serde_json::json;
+use vcommon::{catch, hash64, hex, par_for, Args, Report, Tier, Violation};
+use zbus::{
+    message::{Builder, Flags},
+    zvariant::{
+        serialized::{Context, Data},
+        Endian,
+    },
+    Message,
+};
+
+use crate::refmsg::{self as rm, o, s, var, Ty, RV};
+
+// ---------------------------------------------------------------------------------------------
+// body corpus
+// ---------------------------------------------------------------------------------------------
+
+#[derive(Clone, Copy, Debug, PartialEq)]
+pub enum Typed {
+    U32,
+    Str,
+    ByteU64,
+    VecI32,
+    StructArg,
+    EmptyVecU64,
+}
+
+pub struct BodyDef {
+    pub name: &'static str,
+    pub args: Vec<RV>,
+    pub typed: Option<Typed>,
+}
+
+pub fn bodies(tier: Tier) -> Vec<BodyDef> {
+    let b = |name, args, typed| BodyDef { name, args, typed };
+    let mut v = vec![
+        b("unit", vec![], None),
+        b("u32", vec![RV::U(7)], Some(Typed::U32)),
+        b("string", vec![s("hello")], Some(Typed::Str)),
+        b("byte-then-u64", vec![RV::Y(1), RV::T(2)], Some(Typed::ByteU64)),
+        b(
+            "one-struct-arg",
+            vec![RV::Struct(vec![RV::Y(1), RV::T(2)])],
+            Some(Typed::StructArg),
+        ),
+        b(
+            "array-i32",
+            vec![RV::Array(Ty::I, vec![RV::I(1), RV::I(-2), RV::I(3)])],
+            Some(Typed::VecI32),
+        ),
+        b("empty-array-u64", vec![RV::Array(Ty::T, vec![])], Some(Typed::EmptyVecU64)),
+        b(
+            "dict-sv",
+            vec![RV::Dict(
+                Ty::S,
+                Ty::V,
+                vec![(s("k"), var(RV::U(1))), (s("key2"), var(s("v")))],
+            )],
+            None,
+        ),
+        b("variant", vec![var(s("x")), var(RV::T(9))], None),
+        b(
+            "nested",
+            vec![
+                RV::Y(9),
+                RV::Struct(vec![
+                    RV::Array(
+                        Ty::Struct(vec![Ty::Y, Ty::V]),
+                        vec![RV::Struct(vec![RV::Y(1), var(o("/p"))])],
+                    ),
+                    RV::Struct(vec![
+                        s("é/€"),
+                        RV::Dict(Ty::U, Ty::Array(Box::new(Ty::S)), vec![(RV::U(5), RV::Array(Ty::S, vec![s("")]))]),
+                    ]),
+                ]),
+                RV::D(1.5f64.to_bits()),
+            ],
+            None,
+        ),
+        b("one-fd", vec![RV::H(0)], None),
+        b("string-and-fd", vec![s("f"), RV::H(1)], None),
+        b("two-fds", vec![RV::H(0), RV::H(1)], None),
+        b("array-of-fds", vec![RV::Array(Ty::H, vec![RV::H(1), RV::H(0)]), RV::Y(1)], None),
+    ];
+    if tier == Tier::Thorough {
+        v.push(b("bool-i16", vec![RV::B(true), RV::N(-1)], None));
+        v.push(b("same-fd-twice", vec![RV::H(0), RV::H(0)], None));
+        v.push(b("fd-in-variant", vec![var(RV::H(1))], None));
+        v.push(b("sig-and-path", vec![rm::g("a{sv}"), o("/a/b")], None));
+        v.push(b("empty-string", vec![s("")], None));
+        v.push(b(
+            "array-of-struct",
+            vec![RV::Array(
+                Ty::Struct(vec![Ty::Y, Ty::T]),
+                vec![RV::Struct(vec![RV::Y(1), RV::T(1)]), RV::Struct(vec![RV::Y(2), RV::T(2)])],
+            )],
+            None,
+        ));
+    }
+    v
+}
+
+/// The case's fd table: two distinct anonymous files shared by all cases (zbus dups them).
+pub fn fd_table() -> &'static [OwnedFd] {
+    static T: OnceLock<Vec<OwnedFd>> = OnceLock::new();
+    T.get_or_init(|| vec![crate::world::new_fd("c11-fd0"), crate::world::new_fd("c11-fd1")])
+}
+
+fn table_inodes() -> &'static [u64] {
+    static T: OnceLock<Vec<u64>> = OnceLock::new();
+    T.get_or_init(|| fd_table().iter().map(|f| crate::world::inode_of(f)).collect())
+}
+
+fn fd_index_of_raw(raw: i32) -> u32 {
+    let ino = crate::world::inode_of(&raw);
+    table_inodes()
+        .iter()
+        .position(|i| *i == ino)
+        .map(|p| p as u32)
+        .unwrap_or(u32::MAX)
+}
+
+// ---------------------------------------------------------------------------------------------
+// cases
+// ---------------------------------------------------------------------------------------------
+
+#[derive(Clone, Debug, Serialize, Deserialize, Hash, PartialEq)]
+pub struct Case {
+    pub mtype: u8,
+    pub be: bool,
+    pub flags: u8,
+    /// explicit serial (`Builder::serial`) or the library's counter
+    pub serial: Option<u32>,
+    pub path: Option<String>,
+    pub interface: Option<String>,
+    pub member: Option<String>,
+    pub error_name: Option<String>,
+    /// calls/signals: `reply_serial(Some(x))` when Some. replies: the serial of the call replied to.
+    pub reply_serial: Option<u32>,
+    /// replies only: 0 = keep the inherited reply serial, 1 = remove it with `reply_serial(None)`
+    pub reply_serial_removed: bool,
+    pub destination: Option<String>,
+    /// replies only: destination inherited from the call's sender instead of `destination()`
+    pub dest_inherited: bool,
+    pub sender: Option<String>,
+    pub body: usize,
+    pub typed: bool,
+    /// 0 = `Message::method_call/signal/method_return/error`, 1 = additionally rebuilt through
+    /// `Builder::from(header)`
+    pub route: u8,
+}
+
+impl Case {
+    pub fn expected_fields(&self, body: &BodyDef) -> Vec<(u8, RV)> {
+        let mut f = vec![];
+        if let Some(p) = &self.path {
+            f.push((rm::PATH, o(p)));
+        }
+        if let Some(x) = &self.interface {
+            f.push((rm::INTERFACE, s(x)));
+        }
+        if let Some(x) = &self.member {
+            f.push((rm::MEMBER, s(x)));
+        }
+        if let Some(x) = &self.error_name {
+            f.push((rm::ERROR_NAME, s(x)));
+        }
+        if let (Some(x), false) = (self.reply_serial, self.reply_serial_removed) {
+            f.push((rm::REPLY_SERIAL, RV::U(x)));
+        }
+        if let Some(x) = &self.destination {
+            f.push((rm::DESTINATION, s(x)));
+        }
+        if let Some(x) = &self.sender {
+            f.push((rm::SENDER, s(x)));
+        }
+        if !body.args.is_empty() {
+            f.push((rm::SIGNATURE, RV::G(rm::body_sig(&body.args))));
+        }
+        let n: usize = body.args.iter().map(|a| a.count_fds()).sum();
+        if n > 0 {
+            f.push((rm::UNIX_FDS, RV::U(n as u32)));
+        }
+        f
+    }
+    fn is_reply(&self) -> bool {
+        self.mtype == rm::METHOD_RETURN || self.mtype == rm::ERROR
+    }
+}
+
+fn opt_vals(vals: &[&str]) -> Vec<Option<String>> {
+    let mut v = vec![None];
+    v.extend(vals.iter().map(|x| Some(x.to_string())));
+    v
+}
+fn req_vals(vals: &[&str]) -> Vec<Option<String>> {
+    vals.iter().map(|x| Some(x.to_string())).collect()
+}
+
+pub fn enumerate(tier: Tier, bodies: &[BodyDef]) -> Vec<Case> {
+    let t = tier == Tier::Thorough;
+    let paths: &[&str] = &["/", "/a/b"];
+    let dests: &[&str] = &[":1.5", "org.a.B"];
+    let ifaces: &[&str] = if t { &["x.y.I", "a.b"] } else { &["x.y.I"] };
+    let members: &[&str] = if t { &["Ping", "M"] } else { &["Ping"] };
+    let senders: &[&str] = if t { &[":1.7", ":9.99999"] } else { &[":1.7"] };
+    let errors: &[&str] = if t {
+        &["x.y.E", "org.freedesktop.DBus.Error.Failed"]
+    } else {
+        &["x.y.E"]
+    };
+    let rserials: &[u32] = if t { &[5, u32::MAX] } else { &[5] };
+    let serials: &[Option<u32>] = &[None, Some(0xfffffffe)];
+
+    let mut out = vec![];
+    for mtype in [rm::METHOD_CALL, rm::SIGNAL, rm::METHOD_RETURN, rm::ERROR] {
+        let reply = mtype == rm::METHOD_RETURN || mtype == rm::ERROR;
+        // header field combinations
+        let path_opts = if reply { opt_vals(paths) } else { req_vals(paths) };
+        let iface_opts = if mtype == rm::SIGNAL { req_vals(ifaces) } else { opt_vals(ifaces) };
+        let member_opts = if reply { opt_vals(members) } else { req_vals(members) };
+        let err_opts = if mtype == rm::ERROR { req_vals(errors) } else { vec![None] };
+        // (destination, inherited)
+        let mut dest_opts: Vec<(Option<String>, bool)> = vec![(None, false)];
+        for d in dests {
+            dest_opts.push((Some(d.to_string()), false));
+        }
+        if reply {
+            // inherited from the call's sender (must be a unique name)
+            dest_opts.push((Some(":1.5".to_string()), true));
+        }
+        let sender_opts = opt_vals(senders);
+        // (reply_serial, removed)
+        let mut rs_opts: Vec<(Option<u32>, bool)> = vec![];
+        if reply {
+            for r in rserials {
+                rs_opts.push((Some(*r), false));
+            }
+            rs_opts.push((Some(5), true));
+        } else {
+            rs_opts.push((None, false));
+            for r in rserials {
+                rs_opts.push((Some(*r), false));
+            }
+        }
+        let mut headers = vec![];
+        for p in &path_opts {
+            for i in &iface_opts {
+                for m in &member_opts {
+                    for e in &err_opts {
+                        for (d, dinh) in &dest_opts {
+                            for sn in &sender_opts {
+                                for (rs, rem) in &rs_opts {
+                                    headers.push((p, i, m, e, d, *dinh, sn, *rs, *rem));
+                                }
+                            }
+                        }
+                    }
+                }
+            }
+        }
+        for (p, i, m, e, d, dinh, sn, rs, rem) in headers {
+            for flags in 0u8..8 {
+                for be in [false, true] {
+                    for (bi, b) in bodies.iter().enumerate() {
+                        for typed in [false, true] {
+                            if typed && b.typed.is_none() {
+                                continue;
+                            }
+                            for serial in serials {
+                                for route in [0u8, 1] {
+                                    out.push(Case {
+                                        mtype,
+                                        be,
+                                        flags,
+                                        serial: *serial,
+                                        path: p.clone(),
+                                        interface: i.clone(),
+                                        member: m.clone(),
+                                        error_name: e.clone(),
+                                        reply_serial: rs,
+                                        reply_serial_removed: rem,
+                                        destination: d.clone(),
+                                        dest_inherited: dinh,
+                                        sender: sn.clone(),
+                                        body: bi,
+                                        typed,
+                                        route,
+                                    });
+                                }
+                            }
+                        }
+                    }
+                }
+            }
+        }
+    }
+    out
+}
+
+// ---------------------------------------------------------------------------------------------
+// driving the builder
+// ---------------------------------------------------------------------------------------------
+
+fn zerr(e: impl std::fmt::Display) -> String {
+    e.to_string()
+}
+
+fn build_body(b: Builder<'_>, body: &BodyDef, typed: bool) -> Result<Message, String> {
+    if typed {
+        return match body.typed.expect("typed twin") {
+            Typed::U32 => b.build(&7u32),
+            Typed::Str => b.build(&"hello"),
+            Typed::ByteU64 => b.build(&(1u8, 2u64)),
+            Typed::VecI32 => b.build(&vec![1i32, -2, 3]),
+            Typed::StructArg => b.build(&((1u8, 2u64),)),
+            Typed::EmptyVecU64 => b.build(&Vec::<u64>::new()),
+        }
+        .map_err(zerr);
+    }
+    if body.args.is_empty() {
+        return b.build(&()).map_err(zerr);
+    }
+    let st = rm::body_structure(&body.args, fd_table())?;
+    b.build(&st).map_err(zerr)
+}
+
+pub enum Built {
+    Msg(Message),
+    /// `with_flags` refused the flag for this message type.
+    FlagRefused(String),
+    /// any other builder error
+    Refused(String),
+}
+
+pub fn build_case(c: &Case, bodies: &[BodyDef]) -> Built {
+    let endian = if c.be { Endian::Big } else { Endian::Little };
+    let body = &bodies[c.body];
+    macro_rules! tr {
+        ($e:expr) => {
+            match $e {
+                Ok(v) => v,
+                Err(e) => return Built::Refused(e.to_string()),
+            }
+        };
+    }
+    let call_msg; // keeps the replied-to call alive
+    let call_hdr;
+    let mut b: Builder<'_> = match c.mtype {
+        rm::METHOD_CALL => {
+            let mut b = tr!(Message::method_call(
+                c.path.as_deref().unwrap(),
+                c.member.as_deref().unwrap()
+            ));
+            if let Some(i) = &c.interface {
+                b = tr!(b.interface(i.as_str()));
+            }
+            b.endian(endian)
+        }
+        rm::SIGNAL => tr!(Message::signal(
+            c.path.as_deref().unwrap(),
+            c.interface.as_deref().unwrap(),
+            c.member.as_deref().unwrap()
+        ))
+        .endian(endian),
+        _ => {
+            let mut cb = tr!(Message::method_call("/call", "Call"))
+                .endian(endian)
+                .serial(NonZeroU32::new(c.reply_serial.unwrap()).unwrap());
+            if c.dest_inherited {
+                cb = tr!(cb.sender(c.destination.as_deref().unwrap()));
+            }
+            call_msg = tr!(cb.build(&()));
+            call_hdr = call_msg.header();
+            // byte order is inherited from the call
+            let mut b = if c.mtype == rm::METHOD_RETURN {
+                tr!(Message::method_return(&call_hdr))
+            } else {
+                tr!(Message::error(&call_hdr, c.error_name.as_deref().unwrap()))
+            };
+            if let Some(p) = &c.path {
+                b = tr!(b.path(p.as_str()));
+            }
+            if let Some(i) = &c.interface {
+                b = tr!(b.interface(i.as_str()));
+            }
+            if let Some(m) = &c.member {
+                b = tr!(b.member(m.as_str()));
+            }
+            if c.reply_serial_removed {
+                b = b.reply_serial(None);
+            }
+            b
+        }
+    };
+    if !c.is_reply() {
+        if let Some(r) = c.reply_serial {
+            b = b.reply_serial(NonZeroU32::new(r));
+        }
+    }
+    if let (Some(d), false) = (&c.destination, c.dest_inherited) {
+        b = tr!(b.destination(d.as_str()));
+    }
+    if let Some(sn) = &c.sender {
+        b = tr!(b.sender(sn.as_str()));
+    }
+    for (bit, flag) in [
+        (1u8, Flags::NoReplyExpected),
+        (2, Flags::NoAutoStart),
+        (4, Flags::AllowInteractiveAuth),
+    ] {
+        if c.flags & bit != 0 {
+            b = match b.with_flags(flag) {
+                Ok(b) => b,
+                Err(e) => return Built::FlagRefused(e.to_string()),
+            };
+        }
+    }
+    if let Some(sn) = c.serial {
+        b = b.serial(NonZeroU32::new(sn).unwrap());
+    }
+    let m = match build_body(b, body, c.typed) {
+        Ok(m) => m,
+        Err(e) => return Built::Refused(e),
+    };
+    if c.route == 0 {
+        return Built::Msg(m);
+    }
+    let hdr = m.header();
+    match build_body(Builder::from(hdr), body, c.typed) {
+        Ok(m2) => Built::Msg(m2),
+        Err(e) => Built::Refused(format!("Builder::from(header): {e}")),
+    }
+}
+
+// ---------------------------------------------------------------------------------------------
+// observation of a zbus message through its public accessors
+// ---------------------------------------------------------------------------------------------
+
+#[derive(Debug, Clone, PartialEq)]
+pub struct Obs {
+    pub mtype: u8,
+    pub flags: u8,
+    pub serial: u32,
+    pub be: bool,
+    pub version: u8,
+    pub body_len: u32,
+    pub path: Option<String>,
+    pub interface: Option<String>,
+    pub member: Option<String>,
+    pub error_name: Option<String>,
+    pub reply_serial: Option<u32>,
+    pub destination: Option<String>,
+    pub sender: Option<String>,
+    /// `to_string_no_parens` of the body signature
+    pub signature: String,
+    pub unix_fds: Option<u32>,
+    pub n_fds: usize,
+}
+
+pub fn observe(m: &Message) -> Obs {
+    let h = m.header();
+    let p = h.primary();
+    Obs {
+        mtype: h.message_type() as u8,
+        flags: p.flags().bits(),
+        serial: p.serial_num().get(),
+        be: matches!(Endian::from(p.endian_sig()), Endian::Big),
+        version: p.protocol_version(),
+        body_len: p.body_len(),
+        path: h.path().map(|x| x.as_str().to_string()),
+        interface: h.interface().map(|x| x.as_str().to_string()),
+        member: h.member().map(|x| x.as_str().to_string()),
+        error_name: h.error_name().map(|x| x.as_str().to_string()),
+        reply_serial: h.reply_serial().map(|x| x.get()),
+        destination: h.destination().map(|x| x.as_str().to_string()),
+        sender: h.sender().map(|x| x.as_str().to_string()),
+        signature: m.body().signature().to_string_no_parens(),
+        unix_fds: h.unix_fds(),
+        n_fds: m.data().fds().len(),
+    }
+}
+
+/// The body value as the library deserializes it (dynamic `Structure` of the arguments).
+pub fn read_body(m: &Message) -> Result<Vec<RV>, String> {
+    let body = m.body();
+    if matches!(body.signature(), zbus::zvariant::Signature::Unit) {
+        body.deserialize::<()>().map_err(zerr)?;
+        return Ok(vec![]);
+    }
+    let st: zbus::zvariant::Structure<'_> = body.deserialize().map_err(zerr)?;
+    st.fields()
+        .iter()
+        .map(|v| rm::from_value(v, &fd_index_of_raw))
+        .collect()
+}
+
+/// `Message::from_bytes` of the message's bytes with dups of its fds.
+pub fn reparse(m: &Message) -> Result<Message, String> {
+    let bytes = m.data().bytes().to_vec();
+    let endian = if bytes.first() == Some(&b'B') { Endian::Big } else { Endian::Little };
+    let mut fds: Vec<OwnedFd> = vec![];
+    for f in m.data().fds() {
+        fds.push(f.as_fd().try_clone_to_owned().map_err(zerr)?);
+    }
+    let data = Data::new_fds(bytes, Context::new_dbus(endian, 0), fds);
+    unsafe { Message::from_bytes(data) }.map_err(zerr)
+}
+
+/// Equal body values, allowing for the library reading a body that is one struct argument as the
+/// struct's members (the wire bytes are identical).
+fn body_eq(expected: &[RV], observed: &[RV]) -> bool {
+    if rm::rvs_eq(expected, observed) {
+        return true;
+    }
+    if let [RV::Struct(fs)] = expected {
+        return rm::rvs_eq(fs, observed);
+    }
+    false
+}
+
+fn sig_eq(expected_args: &[RV], observed_no_parens: &str) -> bool {
+    let full = rm::body_sig(expected_args);
+    if full == observed_no_parens {
+        return true;
+    }
+    if let [RV::Struct(_)] = expected_args {
+        return &full[1..full.len() - 1] == observed_no_parens;
+    }
+    false
+}
+
+// ---------------------------------------------------------------------------------------------
+// the oracle
+// ---------------------------------------------------------------------------------------------
+
+pub struct Verdict {
+    pub outcome: String,
+    pub violations: Vec<Violation>,
+    pub bytes: Vec<u8>,
+}
+
+fn type_name(t: u8) -> &'static str {
+    match t {
+        1 => "method_call",
+        2 => "method_return",
+        3 => "error",
+        4 => "signal",
+        _ => "?",
+    }
+}
+
+pub fn check_case(c: &Case, bodies: &[BodyDef]) -> Verdict {
+    let body = &bodies[c.body];
+    let replay = json!({"case": c, "body_name": body.name});
+    let mut vs: Vec<Violation> = vec![];
+    let mut viol = |clause: &str, what: &str, detail: String| {
+        vs.push(
+            Violation::new(
+                clause,
+                format!(
+                    "{} {} body={} flags={:#x} route={}: {detail}",
+                    type_name(c.mtype),
+                    if c.be { "BE" } else { "LE" },
+                    body.name,
+                    c.flags,
+                    c.route
+                ),
+                replay.clone(),
+            )
+            .feat("what", what)
+            .feat("type", type_name(c.mtype)),
+        );
+    };
+
+    let built = match catch(|| build_case(c, bodies)) {
+        Ok(b) => b,
+        Err(p) => {
+            viol("build-no-panic", "panic", format!("builder panicked: {p} at {}", vcommon::last_panic_location()));
+            return Verdict { outcome: "builder-panicked".into(), violations: vs, bytes: vec![] };
+        }
+    };
+    let m = match built {
+        Built::Msg(m) => m,
+        Built::FlagRefused(_) => {
+            // NoReplyExpected on anything but a method call: the builder's documented refusal.
+            let expected = c.mtype != rm::METHOD_CALL && c.flags & 1 != 0;
+            return Verdict {
+                outcome: if expected { "builder-refused-flag".into() } else { "builder-refused-unexpectedly".into() },
+                violations: vs,
+                bytes: vec![],
+            };
+        }
+        Built::Refused(e) => {
+            return Verdict { outcome: format!("builder-refused-unexpectedly: {e}"), violations: vs, bytes: vec![] };
+        }
+    };
+
+    let bytes = m.data().bytes().to_vec();
+    let n_fds_attached = m.data().fds().len();
+    let expected_fields = c.expected_fields(body);
+    let built_serial = m.primary_header().serial_num().get();
+    let expected_serial = c.serial.unwrap_or(built_serial);
+    if let Some(sn) = c.serial {
+        if built_serial != sn {
+            viol("reparse-equal", "serial", format!("explicit serial {sn} but the message reports {built_serial}"));
+        }
+    }
+
+    // ---- reference parse of the header
+    let mut outcome = String::from("ok");
+    match rm::parse_header(&bytes) {
+        Err(e) => viol("header-array-valid", "header", format!("{e}; bytes={}", hex(&bytes))),
+        Ok(ph) => {
+            outcome = format!("ok/header-padding={}", ph.body_offset - 16 - ph.fields_len as usize);
+            // fields as a set
+            let mut seen = std::collections::BTreeSet::new();
+            for (code, v) in &ph.fields {
+                if !seen.insert(*code) {
+                    viol("fields-as-set", "duplicate", format!("field {} appears twice", rm::field_name(*code)));
+                }
+                match rm::prescribed_type(*code) {
+                    None => viol("fields-as-set", "unknown-code", format!("field code {code} emitted")),
+                    Some(t) if t != v.ty() => viol(
+                        "fields-as-set",
+                        "value-type",
+                        format!("field {} carries type {} instead of {}", rm::field_name(*code), v.ty().sig(), t.sig()),
+                    ),
+                    _ => {}
+                }
+            }
+            // absent SIGNATURE == empty signature, absent UNIX_FDS == 0 (what the format says)
+            let canon = |fs: &[(u8, RV)]| {
+                let mut v: Vec<(u8, String)> = fs
+                    .iter()
+                    .filter(|(c, v)| {
+                        !((*c == rm::SIGNATURE && *v == RV::G(String::new())) || (*c == rm::UNIX_FDS && *v == RV::U(0)))
+                    })
+                    .map(|(c, v)| (*c, format!("{}:{}", v.ty().sig(), v.show())))
+                    .collect();
+                v.sort();
+                v
+            };
+            let (exp, got) = (canon(&expected_fields), canon(&ph.fields));
+            if exp != got {
+                for e in &exp {
+                    if !got.contains(e) {
+                        viol(
+                            "fields-as-set",
+                            &format!("missing-or-wrong-{}", rm::field_name(e.0)),
+                            format!("expected field {} = {} ; header has {:?}", rm::field_name(e.0), e.1, got),
+                        );
+                    }
+                }
+                for g in &got {
+                    if !exp.contains(g) && !exp.iter().any(|e| e.0 == g.0) {
+                        viol(
+                            "fields-as-set",
+                            &format!("extra-{}", rm::field_name(g.0)),
+                            format!("header has field {} = {} that the message does not logically have", rm::field_name(g.0), g.1),
+                        );
+                    }
+                }
+            }
+            // fixed part + whole header byte-exact under the reference encoder
+            let actual_body_len = bytes.len().saturating_sub(ph.body_offset);
+            let reference = rm::encode_header(
+                c.be,
+                c.mtype,
+                c.flags,
+                1,
+                actual_body_len as u32,
+                expected_serial,
+                &ph.fields,
+            );
+            if bytes.len() < ph.body_offset || reference[..16] != bytes[..16] {
+                viol(
+                    "header-bytes-exact",
+                    "fixed-part",
+                    format!("fixed part {} but the format prescribes {}", hex(&bytes[..16]), hex(&reference[..16])),
+                );
+            } else if reference[..] != bytes[..ph.body_offset] {
+                viol(
+                    "header-bytes-exact",
+                    "fields-or-padding",
+                    format!("header {} but the reference encodes {}", hex(&bytes[..ph.body_offset]), hex(&reference)),
+                );
+            }
+            // declared body length
+            if ph.body_len as usize != actual_body_len || bytes.len() < ph.body_offset {
+                viol(
+                    "body-length-declared",
+                    "body-length",
+                    format!(
+                        "declared body length {} but {} bytes follow the body offset {}",
+                        ph.body_len, actual_body_len, ph.body_offset
+                    ),
+                );
+            }
+            // declared fd count
+            let declared_fds = ph
+                .fields
+                .iter()
+                .find(|(c, _)| *c == rm::UNIX_FDS)
+                .and_then(|(_, v)| if let RV::U(n) = v { Some(*n as usize) } else { None })
+                .unwrap_or(0);
+            let body_fds: usize = body.args.iter().map(|a| a.count_fds()).sum();
+            if declared_fds != n_fds_attached || declared_fds != body_fds {
+                viol(
+                    "unix-fds-declared",
+                    "unix-fds",
+                    format!("UNIX_FDS declares {declared_fds}, {n_fds_attached} fds attached, body has {body_fds} fd values"),
+                );
+            }
+            // body decodes to the value
+            if bytes.len() >= ph.body_offset {
+                let tys: Vec<Ty> = body.args.iter().map(|a| a.ty()).collect();
+                match rm::decode_body(&tys, &bytes[ph.body_offset..], c.be, n_fds_attached as u32) {
+                    Err(e) => viol("body-decodes", "body", format!("body bytes do not decode as {}: {e}", rm::body_sig(&body.args))),
+                    Ok(vals) => {
+                        // wire fd index -> attached fd -> table index
+                        let fds = m.data().fds();
+                        let mapped: Vec<RV> = vals
+                            .iter()
+                            .map(|v| {
+                                v.map_fds(&|i| {
+                                    fds.get(i as usize)
+                                        .map(|f| {
+                                            use std::os::fd::AsRawFd;
+                                            fd_index_of_raw(f.as_fd().as_raw_fd())
+                                        })
+                                        .unwrap_or(u32::MAX)
+                                })
+                            })
+                            .collect();
+                        if !rm::rvs_eq(&mapped, &body.args) {
+                            viol(
+                                "body-decodes",
+                                "body",
+                                format!(
+                                    "body bytes decode to {:?}, built from {:?}",
+                                    mapped.iter().map(|x| x.show()).collect::<Vec<_>>(),
+                                    body.args.iter().map(|x| x.show()).collect::<Vec<_>>()
+                                ),
+                            );
+                        }
+                    }
+                }
+            }
+        }
+    }
+
+    // ---- re-parse with the library
+    let expected_obs = Obs {
+        mtype: c.mtype,
+        flags: c.flags,
+        serial: expected_serial,
+        be: c.be,
+        version: 1,
+        body_len: 0, // compared separately
+        path: c.path.clone(),
+        interface: c.interface.clone(),
+        member: c.member.clone(),
+        error_name: c.error_name.clone(),
+        reply_serial: if c.reply_serial_removed { None } else { c.reply_serial },
+        destination: c.destination.clone(),
+        sender: c.sender.clone(),
+        signature: String::new(),
+        unix_fds: None,
+        n_fds: 0,
+    };
+    let re = catch(|| {
+        let r = reparse(&m)?;
+        let obs = observe(&r);
+        let body_val = read_body(&r);
+        Ok::<_, String>((obs, body_val))
+    });
+    match re {
+        Err(p) => viol("reparse-equal", "panic", format!("re-parsing panicked: {p} at {}", vcommon::last_panic_location())),
+        Ok(Err(e)) => viol("reparse-equal", "from_bytes-error", format!("Message::from_bytes(data) failed: {e}; bytes={}", hex(&bytes))),
+        Ok(Ok((obs, body_val))) => {
+            let built_side = catch(|| (observe(&m), read_body(&m)));
+            let mut cmp = |what: &str, ok: bool, detail: String| {
+                if !ok {
+                    viol("reparse-equal", what, detail);
+                }
+            };
+            cmp("type", obs.mtype == expected_obs.mtype, format!("type {} re-parses as {}", c.mtype, obs.mtype));
+            cmp("serial", obs.serial == expected_obs.serial, format!("serial {} re-parses as {}", expected_obs.serial, obs.serial));
+            cmp("flags", obs.flags == expected_obs.flags, format!("flags {:#x} re-parse as {:#x}", c.flags, obs.flags));
+            cmp("endian", obs.be == c.be, format!("byte order BE={} re-parses as BE={}", c.be, obs.be));
+            cmp("version", obs.version == 1, format!("protocol version re-parses as {}", obs.version));
+            cmp("path", obs.path == expected_obs.path, format!("path {:?} re-parses as {:?}", expected_obs.path, obs.path));
+            cmp("interface", obs.interface == expected_obs.interface, format!("interface {:?} re-parses as {:?}", expected_obs.interface, obs.interface));
+            cmp("member", obs.member == expected_obs.member, format!("member {:?} re-parses as {:?}", expected_obs.member, obs.member));
+            cmp("error_name", obs.error_name == expected_obs.error_name, format!("error name {:?} re-parses as {:?}", expected_obs.error_name, obs.error_name));
+            cmp("reply_serial", obs.reply_serial == expected_obs.reply_serial, format!("reply serial {:?} re-parses as {:?}", expected_obs.reply_serial, obs.reply_serial));
+            cmp("destination", obs.destination == expected_obs.destination, format!("destination {:?} re-parses as {:?}", expected_obs.destination, obs.destination));
+            cmp("sender", obs.sender == expected_obs.sender, format!("sender {:?} re-parses as {:?}", expected_obs.sender, obs.sender));
+            cmp(
+                "signature",
+                sig_eq(&body.args, &obs.signature),
+                format!("body signature {:?} re-parses as {:?}", rm::body_sig(&body.args), obs.signature),
+            );
+            let body_fds: usize = body.args.iter().map(|a| a.count_fds()).sum();
+            cmp(
+                "unix_fds",
+                obs.unix_fds.unwrap_or(0) as usize == body_fds && obs.n_fds == body_fds,
+                format!("{} fds re-parse as unix_fds={:?} with {} attached", body_fds, obs.unix_fds, obs.n_fds),
+            );
+            match &body_val {
+                Err(e) => cmp("body", false, format!("re-parsed body does not deserialize: {e}")),
+                Ok(v) => cmp(
+                    "body",
+                    body_eq(&body.args, v),
+                    format!(
+                        "body {:?} re-parses as {:?}",
+                        body.args.iter().map(|x| x.show()).collect::<Vec<_>>(),
+                        v.iter().map(|x| x.show()).collect::<Vec<_>>()
+                    ),
+                ),
+            }
+            // built message and re-parsed message agree through the same accessors
+            match built_side {
+                Err(p) => cmp("built-accessors-panic", false, format!("accessors of the built message panicked: {p}")),
+                Ok((bobs, bbody)) => {
+                    cmp("built-vs-reparsed-header", bobs == obs, format!("built message reads {bobs:?}, re-parsed reads {obs:?}"));
+                    let same = match (&bbody, &body_val) {
+                        (Ok(a), Ok(b)) => rm::rvs_eq(a, b),
+                        (Err(_), Err(_)) => true,
+                        _ => false,
+                    };
+                    cmp("built-vs-reparsed-body", same, format!("built body reads {bbody:?}, re-parsed reads {body_val:?}"));
+                }
+            }
+            // statically typed read-back for typed bodies
+            if c.typed {
+                let typed_ok = catch(|| {
+                    let r = reparse(&m)?;
+                    let b = r.body();
+                    let ok = match body.typed.unwrap() {
+                        Typed::U32 => b.deserialize::<u32>().map(|v| v == 7).map_err(zerr),
+                        Typed::Str => b.deserialize::<&str>().map(|v| v == "hello").map_err(zerr),
+                        Typed::ByteU64 => b.deserialize::<(u8, u64)>().map(|v| v == (1, 2)).map_err(zerr),
+                        Typed::VecI32 => b.deserialize::<Vec<i32>>().map(|v| v == vec![1, -2, 3]).map_err(zerr),
+                        // One struct argument: the library's convention reads it back as its members.
+                        Typed::StructArg => b.deserialize::<(u8, u64)>().map(|v| v == (1, 2)).map_err(zerr),
+                        Typed::EmptyVecU64 => b.deserialize::<Vec<u64>>().map(|v| v.is_empty()).map_err(zerr),
+                    };
+                    ok
+                });
+                match typed_ok {
+                    Ok(Ok(true)) => {}
+                    other => cmp("typed-body", false, format!("typed read-back of body {}: {other:?}", body.name)),
+                }
+            }
+        }
+    }
+
+    if !vs.is_empty() {
+        outcome = "violation".into();
+    }
+    Verdict { outcome, violations: vs, bytes }
+}
+
+// ---------------------------------------------------------------------------------------------
+// main / replay
+// ---------------------------------------------------------------------------------------------
+
+fn replay(path: &str, tier: Tier) -> i32 {
+    let v = vcommon::load_replay(path);
+    let r = &v["replay"];
+    let case: Case = match serde_json::from_value(r["case"].clone()) {
+        Ok(c) => c,
+        Err(e) => vcommon::machinery_failure(&format!("C11 replay: bad case: {e}")),
+    };
+    // the body index refers to the corpus of the tier that wrote the artefact; find by name
+    let mut tier = tier;
+    let name = r["body_name"].as_str().unwrap_or("");
+    if bodies(tier).get(case.body).map(|b| b.name) != Some(name) {
+        tier = Tier::Thorough;
+    }
+    let bs = bodies(tier);
+    println!("case: {}", serde_json::to_string(&case).unwrap());
+    println!("body {} = {:?}", bs[case.body].name, bs[case.body].args.iter().map(|x| x.show()).collect::<Vec<_>>());
+    let verdict = check_case(&case, &bs);
+    println!("bytes: {}", hex(&verdict.bytes));
+    if let Ok(ph) = rm::parse_header(&verdict.bytes) {
+        println!(
+            "reference parse: type={} flags={:#x} version={} body_len={} serial={} fields_len={} body_offset={}",
+            ph.mtype, ph.flags, ph.version, ph.body_len, ph.serial, ph.fields_len, ph.body_offset
+        );
+        for (c, v) in &ph.fields {
+            println!("  field {} ({}) = {}:{}", c, rm::field_name(*c), v.ty().sig(), v.show());
+        }
+    }
+    println!("outcome: {}", verdict.outcome);
+    for v in &verdict.violations {
+        println!("violation: clause={} features={:?} {}", v.clause, v.features, v.detail);
+    }
+    if verdict.violations.is_empty() {
+        println!("no violation on this case");
+        0
+    } else {
+        1
+    }
+}
+
+pub fn main(args: &Args) -> i32 {
+    if let Some(p) = &args.replay {
+        return replay(p, args.tier);
+    }
+    let report = Report::new("C11", args.tier, args.seed, "exploration");
+    let bs = bodies(args.tier);
+    let cases = enumerate(args.tier, &bs);
+    let _ = fd_table();
+    let _ = table_inodes();
+    report.set("cases_enumerated", json!(cases.len()));
+    report.set("bodies", json!(bs.iter().map(|b| format!("{}:{}", b.name, rm::body_sig(&b.args))).collect::<Vec<_>>()));
+    let n = cases.len();
+    let sample_every = (n / 10).max(1);
+    par_for(n, 256, |i| {
+        let c = &cases[i];
+        let v = check_case(c, &bs);
+        report.eval(1);
+        report.outcome(&v.outcome);
+        if !v.bytes.is_empty() {
+            report.nontrivial(hash64(c));
+            report.add("messages_built", 1);
+        }
+        if i % sample_every == 0 && !v.bytes.is_empty() {
+            report.sample(json!({"case": c, "body": bs[c.body].name, "bytes": hex(&v.bytes), "outcome": v.outcome}));
+        }
+        if v.outcome.starts_with("builder-refused-unexpectedly") {
+            report.cap(format!("case not checked, the builder refused it: {} ({})", v.outcome, serde_json::to_string(c).unwrap()));
+        }
+        for x in v.violations {
+            report.violation(x);
+        }
+    });
+    report.assume("the reference message layout in refmsg.rs (written from the D-Bus specification) is correct");
+    report.assume("fd identity is (st_dev, st_ino) of anonymous memfds");
+    report.assume("a body that is one struct argument is read back by the library as the struct's members; the wire bytes are identical, so this is accepted as the same value");
+    report.note("both byte orders are built by the library itself (Builder::endian; replies inherit it from the call)");
+    report.finish(
+        "product of message type × settable header-field subsets (value lists per tier) × 8 flag subsets × byte order × body corpus (dynamic and typed routes) × automatic/explicit serial × builder route; a case is non-trivial when the builder produced a message (distinct logical cases counted)",
+        true,
+    )
 }
